@@ -127,6 +127,11 @@ add("C36", "dverif", "exploration",
     "Requests are ones a leader can send (true prev term, FIFO commit order). The term field of success/conflict answers and conflict hints are not compared (a merged group shares one answer).",
     PBT + "metamorphic/differential: merged vs one-at-a-time delivery of generated request queues")
 
+add("C13", "dverif", "exploration",
+    "Real three-node clusters (three EmbeddedEngines with File storage, real gRPC servers on loopback), one per server read configuration (default policy x allow_client_override); generated reads = (node role leader|follower, API path: EmbeddedClient methods, ClientApi trait, raw gRPC handle_client_read sent to that node, requested policy incl. none, key, optional fresh write before); oracle = the property's routing table: effective policy = requested if given and overrides allowed else server default; non-leader + Linearizable/Lease => refused as not-leader, never data; non-leader + Eventual => an acknowledged value; leader => latest acknowledged value.",
+    "Real time: a case whose leader changes or that meets timeouts gives no verdict. Roles = stable leader / stable follower (deposed-leader windows are C12's, on the simulator).",
+    PBT + "generated (role, path, policy, config) combinations on real clusters against a routing-table oracle")
+
 NOT_YET = "check not built yet; to be decided by property-based testing per DESIGN.md §5 (no other technique substituted)"
 
 def hooks_commits():
